@@ -41,7 +41,7 @@ def _J(a):
 
 def chunks(tier):
     N = bounds(tier)["N"]
-    out = [("E", k) for k in range(0, 118, 10)] + [("T",)] + [("P", k) for k in range(0, 118, 8)] + [("N",)] + [("M", i) for i in range(len(MIX))]
+    out = [("E", k) for k in range(0, 118, 10)] + [("T",)] + [("P", k) for k in range(0, 118, 8)] + [("N",), ("HH", 0), ("HH", 1)] + [("M", i) for i in range(len(MIX))]
     for a in range(1, N + 1):
         out += [("B", N, a, j, _J(a)) for j in range(_J(a))]
     return out
@@ -162,6 +162,15 @@ def run_chunk(chunk, tier):
                 res.nontrivial += 1
                 _check_mass(res, s, comp, dict(layer="P", s=s, comp={str(k): v for k, v in comp.items()}))
         res.sample(dict(layer="P", s=F.SYMBOLS[chunk[1]] + "2Og3"))
+    elif kind == "HH":
+        for i, st in enumerate(F.multi_hydrate_states()):
+            if i % 2 == chunk[1]:
+                s, comp = F.string_of(st), F.composition_of(st)
+                res.states += 1
+                res.transitions += F.cost_of(st)
+                res.nontrivial += 1
+                _check_mass(res, s, comp, dict(layer="N", s=s, comp={str(k): v for k, v in comp.items()}))
+        res.sample(dict(layer="HH", s="Na..7H..C"))
     elif kind == "N":
         for st in F.numeral_states():
             s, comp = F.string_of(st), F.composition_of(st)
